@@ -346,6 +346,46 @@ func genC12(t *rapid.T) C12Case {
 	return c
 }
 
+// C12Big: an input of more than 1 MiB reaches the command the same way on every input path (no path has a size limit
+// of its own). Only the input paths are compared here; the rest of C12 runs on ordinary inputs.
+type C12Big struct {
+	Argv   []string `json:"argv"`
+	Head   string   `json:"head"`
+	Filler string   `json:"filler"` // one comment line, repeated Lines times between Head and Tail
+	Lines  int      `json:"lines"`
+	Tail   string   `json:"tail"`
+}
+
+func checkC12Big(c C12Big) *Violation {
+	input := c.Head + strings.Repeat(c.Filler, c.Lines) + c.Tail
+	cc := C12Case{Argv: c.Argv, Input: input, HasInput: true}
+	what := fmt.Sprintf("crd %s on %d bytes of input (%q + %d x %q + %q)", strings.Join(c.Argv, " "), len(input), c.Head, c.Lines, c.Filler, c.Tail)
+	ref := cc.run(nil, "stdin", nil)
+	if v := cleanOutcome(ref); v != nil {
+		v.Msg = what + ": " + v.Msg
+		return v
+	}
+	if ref.Exit != 0 {
+		return vio("big-input-refused", "%s: exit %d: %s", what, ref.Exit, firstLines(ref.Stderr, 2))
+	}
+	show := func(r Result) string {
+		return fmt.Sprintf("exit %d, %d bytes: %q", r.Exit, len(r.Stdout), clip(string(r.Stdout), 200))
+	}
+	for _, mode := range []string{"file", "dash"} {
+		r := cc.run(nil, mode, nil)
+		if !sameOutcome(ref, r) {
+			return vio("input-path:"+mode, "%s: input as %s differs from stdin\nstdin: %s\n%s: %s", what, mode, show(ref), mode, show(r))
+		}
+	}
+	r := Run{Argv: append([]string{}, c.Argv...), Stdin: input, StdinFile: true}.Exec()
+	if !sameOutcome(ref, r) {
+		return vio("input-path:stdin-from-file", "%s: `< file` differs from a pipe\npipe: %s\n< file: %s", what, show(ref), show(r))
+	}
+	return nil
+}
+
+func init() { reg("c12-big", checkC12Big) }
+
 func TestC12(t *testing.T) {
 	r := rec("C12")
 	defer r.Flush()
@@ -382,6 +422,19 @@ func TestC12(t *testing.T) {
 			r.Case(fmt.Sprint(c.Argv, c.Input), true, "fixed:"+cmdName(c.Argv))
 			r.Check(t, checkC12(c), "c12", c)
 		}
+	}
+	big := []C12Big{
+		{Argv: []string{"text", "conv", "syllable", "--key", "G"}, Head: "G[1] D_7/F#[1]\n", Filler: "; remark about the next bar, nothing a parser reads\n", Lines: 21500, Tail: "Em[2] C[1]{txt=end}\n"},
+		{Argv: []string{"text", "parse"}, Head: "1[1]\n", Filler: ";\t\t\t\t\t\t\t\t\t\t\t\t\t\t\t\t\t\t\t\t\t\t\t\t\t\t\t\t\t\t\t\t\t\t\t\t\t\t\t\t\n", Lines: 27000, Tail: "5_7[2] R[1]"},
+		{Argv: []string{"write", "event", "--track", "3"}, Head: "- values: [\"1\"]\n  chord: {degree: \"1\", name: \"m7\"}\n", Filler: "# bars 2-9 still to be written, see the sketch book\n", Lines: 22000, Tail: "- values: [\"1/2\"]\n- values: [\"2\"]\n  chord: {degree: \"5\", name: \"7\", base: \"3\"}\n  meta: {\"mrk\": \"end\"}\n"},
+		{Argv: []string{"write", "conv", "-c", "cmt"}, Head: "- values: [\"1\"]\n  chord: {degree: \"b3\", name: \"M7\"}\n", Filler: "#\n", Lines: 540000, Tail: "- values: [\"3/4\"]\n  chord: {degree: \"4\", name: \"\"}\n"},
+	}
+	for i, b := range big {
+		if !myShare(i + 5) {
+			continue
+		}
+		r.Case(fmt.Sprint("big", b.Argv, b.Lines), true, "input>1MiB:"+cmdName(b.Argv))
+		r.Check(t, checkC12Big(b), "c12-big", b)
 	}
 	rapid.Check(t, func(t *rapid.T) {
 		c := genC12(t)
